@@ -134,6 +134,16 @@ def handle : List String → Option String
       let g := trs2llhVia prog E ⟨x, y, z⟩
       pure s!"{Wire.render g.lat} {Wire.render g.lon} {Wire.render g.h}"
     | _ => none
+  | ["c05", "resolve", fn, explicit, carried] => do
+    -- which ellipsoid `transformation.<fn>(arr, ellipsoid=explicit)` evaluates on when `arr` carries `carried` (`-`: none)
+    let order ← (match fn with
+      | "trs2llh" => some Midgard.Generated.TrsSelect.resolveTrs2llh
+      | "llh2trs" => some Midgard.Generated.TrsSelect.resolveLlh2trs
+      | _ => none)
+    let opt (s : String) : Option (Option Nat) := if s == "-" then some none else (ellIndex? s).map some
+    let e ← opt explicit
+    let c ← opt carried
+    pure (match resolveEllipsoid order e c with | some i => ellName (some i) | none => "?")
   | "c05" :: "f" :: "toffset" :: name :: rest => do
     let E ← ellF? name
     match ← parseAll? (α := Float) rest with
